@@ -1,6 +1,12 @@
 package syncx
 
-import "sync"
+import (
+	"errors"
+	"sync"
+)
+
+// errCallPanicked is what the callers sharing a call get when the call panicked.
+var errCallPanicked = errors.New("syncx: the shared call panicked")
 
 type (
 	// SingleFlight lets the concurrent calls with the same key to share the call result.
@@ -70,7 +76,14 @@ func (g *flightGroup) createCall(key string) (c *call, done bool) {
 }
 
 func (g *flightGroup) makeCall(c *call, key string, fn func() (any, error)) {
+	completed := false
 	defer func() {
+		if !completed {
+			// fn panicked, the callers sharing this call must not take
+			// the zero values for its result.
+			c.err = errCallPanicked
+		}
+
 		g.lock.Lock()
 		delete(g.calls, key)
 		g.lock.Unlock()
@@ -78,4 +91,5 @@ func (g *flightGroup) makeCall(c *call, key string, fn func() (any, error)) {
 	}()
 
 	c.val, c.err = fn()
+	completed = true
 }
